@@ -42,6 +42,7 @@ func TestC14(t *testing.T) {
 	race := os.Getenv("VERIF_RACE") == "1"
 	if !race {
 		sequential(r)
+		reentrant(r)
 	}
 	concurrent(r, race)
 
@@ -100,6 +101,81 @@ func sequential(r *run.R) {
 			r.Violation(sig, caseID, c.msg, map[string]any{"config": cfg, "ops": ops[:res.opIndex+1], "failed_at_op": res.opIndex, "log": res.log})
 		}
 	})
+}
+
+// reentrant: the Connected-during-trim interleaving, reproduced deterministically (see reentrant.go).
+func reentrant(r *run.R) {
+	for _, v := range []int{-5, 0, 5} {
+		caseID := fmt.Sprintf("reentrant/connected-during-trim/value%d", v)
+		if !r.Want(caseID) {
+			continue
+		}
+		var reached, closedFresh bool
+		var log []string
+		synctest.Test(r.T, func(*testing.T) { reached, closedFresh, log = connectedDuringTrim(v) })
+		r.Eval(1)
+		if reached {
+			r.Count("connected_delivered_between_scan_and_selection", 1)
+			r.Nontrivial(caseID)
+		}
+		if closedFresh {
+			// "A trim never closes a connection ... of a peer still inside its grace period"
+			r.Violation(sigConnectedDuringTrim, caseID, "trim closed a connection 0 ms after its peer connected (grace period 10 s): the peer had a buffered tag record older than the grace period when the trim scanned its candidates", map[string]any{"log": log})
+		}
+	}
+	r.Require("connected_delivered_between_scan_and_selection", 1)
+}
+
+// concurrent runs the concurrent histories (and only those, with reduced counts, in the race pass).
+func concurrent(r *run.R, race bool) {
+	cases := r.Pick(1500, 40000)
+	if race {
+		cases = r.Pick(300, 1500)
+	}
+	var mu sync.Mutex
+	run.Parallel(cases, 0, func(i int) {
+		caseID := fmt.Sprintf("conc/%d", i)
+		if !r.Want(caseID) || r.TooMany() {
+			return
+		}
+		cc := genConc(r.Rand(14, 2, uint64(i)))
+		var res *concResult
+		synctest.Test(r.T, func(*testing.T) { res = runConc(cc) })
+		mu.Lock()
+		defer mu.Unlock()
+		r.Eval(1)
+		r.Count("concurrent_cases", 1)
+		for k, v := range res.counts {
+			r.Count(k, v)
+		}
+		if res.overlaps > 0 {
+			r.Nontrivial(caseID)
+			r.Count("concurrent_cases_with_real_overlap", 1)
+		}
+		if i < 2 {
+			r.Sample(map[string]any{"case": caseID, "concurrent_case": cc, "overlapping_pairs": res.overlaps})
+		}
+		if res.inconcl != "" {
+			r.Inconclusive(caseID, res.inconcl)
+		}
+		seen := map[string]bool{}
+		for _, c := range res.complaints {
+			if seen[c.sig] {
+				continue
+			}
+			seen[c.sig] = true
+			d := map[string]any{"case": cc}
+			for k, v := range res.detail {
+				d[k] = v
+			}
+			r.Violation(c.sig, caseID, c.msg, d)
+		}
+	})
+	r.Require("concurrent_cases_with_real_overlap", r.Pick(50, 500)/map[bool]int{false: 1, true: 5}[race])
+	r.Require("porcupine_ok", 100)
+	r.Require("conc_ops_overlapping_a_trim", 10)
+	r.Require("conc_order_pairs_judged", 100)
+	r.Require("conc_trims_count_clause_judged", 100)
 }
 
 func opsString(ops []op) string {
